@@ -53,6 +53,20 @@ of `platform.Definition`, `platform.Platform`, `platform.optionDefinition` and
 `network.PrivilegeLevel` equal those of the translator's mirror structs -/
 theorem mirror_tags_agree : tagMismatches = [] := by decide +kernel
 
+/-- `load_is_pure`: the definition a load yields is a function of the name and variant alone —
+whatever was loaded before and however the holders of those instances mutated them in place — and
+the instances alive before the load are left as their holders left them. (By construction in the
+model; the named obligation of the harness's history scenarios `c17hist`, which put the real
+`NewPlatform` / `NewPlatformVariant` through such histories and compare pointers for sharing.) -/
+theorem load_is_pure (fs : List PlatformFile) (hist hist' : List LoadEvent) (file variant : String) :
+    (loadAfter fs hist file variant).1 = (loadAfter fs hist' file variant).1
+    ∧ (loadAfter fs hist file variant).1 = loadDef fs file variant
+    ∧ (loadAfter fs hist file variant).2 = liveInstances fs hist := ⟨rfl, rfl, rfl⟩
+
+/-- the source keeps no state between loads: package platform declares no package-level variable
+that holds a map, slice, pointer or sync primitive or that a function assigns (go/ast fact) -/
+theorem load_path_has_no_package_state : packageState = [] := by decide +kernel
+
 /-! ## per definition (defaults and merged variants) -/
 
 /-- the declared driver type is one `setDriver` knows -/
